@@ -96,6 +96,7 @@ pub fn worker_dispatch(sub: &str, v: Value) -> Value {
         "C19" => c19::worker(sub, v),
         "C14" => c14::worker(sub, v),
         "C05" => c05::worker(sub, v),
+        "C02" => c02::worker(sub, v),
         _ => Value::Null,
     }
 }
